@@ -37,7 +37,7 @@ def _check(prop, tier, seed, replay, work, t0):
         trans += r["generated"]
         druns.append({"spec": "ClusterReplay", "N": n_, "Window": window, "MaxMig": 2, "invariants": invs.split(), "distinct": r["distinct"]})
     shards = vlib.NCPU
-    n, cmds_, nhot = (640, 8, 1600) if tier == "quick" else (6400, 12, 16000)
+    n, cmds_, nhot = (640, 8, 1600) if tier == "quick" else (3200, 12, 6400)
     trace = os.path.join(work, "trace.ndjson")
     nscen = nexec = nmig = 0
     modes = {}
